@@ -51,3 +51,40 @@ def rint_fine(x, rm):
 def qvid_id(fid, x):
     """identity of the exact value sem(fid)(x) for a rational operand x"""
     return app_id(fid, (x,))
+
+
+def rint_clauses(x, rm, r):
+    """postcondition of rounding the engine argument x to an integer in mode rm (result r: a Float under REAL)"""
+    out = {
+        'float': cls_name(r) == 'Float',
+    }
+    if cls_name(x) == 'Float':
+        fin = fl_finite(x)
+        R = rnd_at(x._real, None, -1, rm)
+        out.update({
+            # IEEE 754 5.9: roundToIntegral of NaN is NaN, of an infinity that infinity, zeros keep their sign
+            'nan': implies(x._isnan, r._isnan and not r._isinf),
+            'inf': implies(x._isinf, r._isinf and not r._isnan and r._real._s == x._real._s),
+            'finite': implies(fin, fl_finite(r)),
+            'sign': implies(fin, r._real._s == x._real._s),
+            # the operand rounded at position -1 (spec.real.rnd_at, the C01 definition)
+            'exp': implies(fin, r._real._exp == R[0]),
+            'c': implies(fin, r._real._c == R[1]),
+            'integer': implies(fin, r._real._exp >= 0),
+            'inexact_iff_changed': implies(fin, r._real._flags.inexact == R[2]),
+            'unchanged_if_integer': implies(fin and x._real._exp >= 0,
+                                            r._real._exp == x._real._exp and r._real._c == x._real._c),
+        })
+        return out
+    # Fraction operand
+    T = rint_q(x, rm)
+    out.update({
+        'finite': fl_finite(r),
+        # IEEE 754 5.9 / 6.3: the sign of the operand is kept, also when the result is zero
+        'sign': r._real._s == (x < 0),
+        # the integer nearest to x in the sense of rm (textbook definition on the grid of the denominator)
+        'exp': r._real._exp == 0 or (x == 0 and r._real._c == 0),
+        'c': r._real._c == T[0],
+        'inexact_iff_changed': r._real._flags.inexact == T[1],
+    })
+    return out
